@@ -6,6 +6,7 @@ import SparseSpace.Drive.Util
     cfg <version> <sv:d:val;…|->                     → ok          (component-grid version, float roundings of version 3)
     step|try <margin> <reb 0|1> <sf> <p:q:n:b;…|-> <bens0>|<bens1>|…
                                                      → ok R <d:i,…> C <p:q:n,…;…> F <0|1>   | fail
+    eval            → ok   (cursor effect of evaluate_operation: clear_new_objects)
     objs <d>        → s:e:l0:l1:c,…          cursors → cur sp,… sn,… pop;…
     lmax            → [..]                   cs      → A [[..]] O [[..]] L n          scheme → [[..]:c,…]
     wf <a1,..> <b1,..> → 1|0 per clause      pts <l1,..> → c,..;l,..|…  D <0|1>
@@ -69,7 +70,7 @@ def wfLine (st : DW) (a b : List Rat) : String :=
     let v := validLevels 0 0 (innerLevels objs)
     let c := objs.all fun x => x.c == lm - ((max x.l0 x.l1 : Nat) : Int) && x.c ≥ 0
     let m := objs.all fun x => ((max x.l0 x.l1 : Nat) : Int) ≤ lm
-    let cur := p.1.pop.isEmpty && p.1.startNew == 0 && p.1.searchPos == 0
+    let cur := p.1.pop.isEmpty && (p.1.startNew == 0 || p.1.startNew == objs.length) && p.1.searchPos == 0
     s!"{if t then 1 else 0}{if v then 1 else 0}{if c then 1 else 0}{if m then 1 else 0}{if cur then 1 else 0}"
   ",".intercalate per
 
@@ -110,6 +111,10 @@ def step (s : S) (line : String) : S × String :=
     | _, _ => (s, "bad-op")
   | ["step", margin, reb, sf, ov, bens] => doStep s true margin reb sf ov bens
   | ["try", margin, reb, sf, ov, bens] => doStep s false margin reb sf ov bens
+  | ["eval"] =>
+    match s.st with
+    | some st => ({ s with st := some st.evaluate }, "ok")
+    | none => (s, "bad-op")
   | ["objs", d] =>
     match s.st, parseNat? d with
     | some st, some d =>
